@@ -66,7 +66,14 @@ func VerifH_server_prefix() {
 		prefixes = []string{""}
 	}
 	marker2 := &vfMarkerHandler{}
-	opts = append(opts, HTTPHandlerOption("/static/", marker), HTTPHandlerOption("/assets/", marker2))
+	// with extra handlers on disjoint patterns, or with the mux alone (then nothing but the mount
+	// patterns is served)
+	extra := vfBool()
+	if extra {
+		opts = append(opts, HTTPHandlerOption("/static/", marker), HTTPHandlerOption("/assets/", marker2))
+	} else {
+		vfCover("mux-alone")
+	}
 	hs, err := NewServer(mounted, opts...)
 	if err != nil {
 		vfFail("NewServer failed: " + err.Error())
@@ -146,6 +153,19 @@ func VerifH_server_prefix() {
 		w3.finish()
 		vfCheck(msrv.calls == calls && w3.status == 404, "a path outside every mount prefix was served by the mux")
 		vfCover("outside-prefix")
+	}
+	if !extra {
+		// nothing else is mounted: what would be another handler's pattern is not the mux's either
+		if prefix != "" {
+			w6 := newFakeRW()
+			calls := msrv.calls
+			r6 := mk("/static/file")
+			r6.Method = "GET"
+			hs.Handler.ServeHTTP(w6, r6)
+			w6.finish()
+			vfCheck(msrv.calls == calls && w6.status == 404, "a path outside every mount prefix was served by the mux")
+		}
+		return
 	}
 	// the extra handler keeps its pattern
 	w4 := newFakeRW()
